@@ -1,7 +1,8 @@
 """C03 — Parallel stages hand every work item to exactly one worker and then terminate."""
 PROPERTY = "C03"
 LEVEL = "other"
-CONTRACT_MODULES = ["contracts.specfuns", "contracts.lemmas_desc", "contracts.pyramid", "contracts.parallel", "contracts.walk", "contracts.reducer"]
+CONTRACT_MODULES = ["contracts.specfuns", "contracts.lemmas_desc", "contracts.pyramid", "contracts.parallel", "contracts.walk", "contracts.reducer",
+                    "contracts.image", "contracts.merge", "contracts.pyramidio", "contracts.study", "contracts.multitan", "contracts.multiwcs"]
 FUNCTIONS = [
     "toasty.pyramid.Pyramid.visit_leaves",
     "toasty.pyramid.Pyramid._visit_leaves_serial",
@@ -10,11 +11,14 @@ FUNCTIONS = [
     "toasty.transform._do_a_transform",
     "toasty.transform._transform_parallel",
     "toasty.transform._transform_mp_worker",
+    "toasty.multi_tan.MultiTanProcessor._tile_parallel",
+    "toasty.multi_wcs.MultiWcsProcessor._tile_parallel",
+    "toasty.multi_wcs._mp_tile_worker",
 ]
 LEMMAS = []
 SLOW = ()
 TRUSTED_BASE = ["pyvc VC generator; z3/cvc5", "multiprocessing Queue/Event/Process contracts of DESIGN.md 3.4 (rely conditions)"]
 ASSUMPTIONS = ["no scheduler fairness and no termination is assumed or proved (liveness is outside this technique)",
-               "multi_tan / multi_wcs tiling workers are covered by the bounded tier only (their bodies need the array model)"]
+               "the multi_tan worker guarantee is proved under C09 (contracts/multitan.py); the multi_wcs worker body (external reprojection) is covered by the bounded tier only"]
 EXPLANATION = ("producer traces (one put per serial item, of that very item, from the same enumeration; close, flush, flag, join) "
                "and worker guarantees (one callback per item, exit only on time-out with the flag set) proved under the queue contract")
